@@ -155,6 +155,9 @@ func runC19(r *Rng, n int, tier string) {
 				`"overrides":{"go":{"rename":{"st":"State"}}}`,
 				`"overrides":{"go":{"rename":{"id":"Identifier","c3":"Third"}}}`,
 				`"overrides":{"go":{"rename":{"st":"State"},"overrides":[{"db_type":"pg_catalog.int8","engine":"postgresql","go_type":"github.com/example/custom.Big","nullable":true}]}}`,
+				// several global overrides, tagged for different engines, in both orders
+				`"overrides":{"go":{"overrides":[{"db_type":"text","engine":"postgresql","go_type":"github.com/example/custom.PgText"},{"db_type":"varchar","engine":"mysql","go_type":"github.com/example/custom.MyStr"},{"db_type":"pg_catalog.int4","engine":"postgresql","go_type":"github.com/example/custom.PgInt"},{"db_type":"int","engine":"mysql","go_type":"github.com/example/custom.MyInt"}]}}`,
+				`"overrides":{"go":{"overrides":[{"db_type":"varchar","engine":"mysql","go_type":"github.com/example/custom.MyStr"},{"db_type":"text","engine":"postgresql","go_type":"github.com/example/custom.PgText"},{"db_type":"text","engine":"mysql","go_type":"github.com/example/custom.MyText"}]}}`,
 			})
 			tags = append(tags, "global-settings")
 		}
